@@ -87,6 +87,13 @@ func (s *indexKVStore) GetValue(bucketID uint32, key []byte) (id uint32, ok bool
 
 // GetValues returns all values for bucket.
 func (s *indexKVStore) GetValues(bucketID uint32) (ids []uint32, err error) {
+	// NOTE: must read memory before getting snapshot, flush commits the kv store then clears immutable store,
+	// if not, values moved by a flush between the two reads are in neither of them.
+	s.lock.RLock()
+	ids = s.getValuesFromMem(s.mutable, bucketID, ids)
+	ids = s.getValuesFromMem(s.immutable, bucketID, ids)
+	s.lock.RUnlock()
+
 	snapshot := s.getSnapshot()
 
 	reader := v1.NewIndexKVReader(snapshot)
@@ -96,15 +103,8 @@ func (s *indexKVStore) GetValues(bucketID uint32) (ids []uint32, err error) {
 	}
 	if bucket != nil {
 		defer bucket.Release()
-		ids = bucket.GetValues()
+		ids = append(ids, bucket.GetValues()...)
 	}
-
-	// find from memory
-	s.lock.RLock()
-	defer s.lock.RUnlock()
-
-	ids = s.getValuesFromMem(s.mutable, bucketID, ids)
-	ids = s.getValuesFromMem(s.immutable, bucketID, ids)
 	return ids, nil
 }
 
@@ -159,6 +159,12 @@ func (s *indexKVStore) CollectKVs(bucketID uint32, values *roaring.Bitmap, resul
 		}
 	}
 
+	// NOTE: must read memory before getting snapshot(same as GetValues)
+	s.lock.RLock()
+	collect(s.mutable)
+	collect(s.immutable)
+	s.lock.RUnlock()
+
 	snapshot := s.getSnapshot()
 
 	reader := v1.NewIndexKVReader(snapshot)
@@ -166,11 +172,6 @@ func (s *indexKVStore) CollectKVs(bucketID uint32, values *roaring.Bitmap, resul
 	if err != nil {
 		return err
 	}
-
-	s.lock.RLock()
-	collect(s.mutable)
-	collect(s.immutable)
-	s.lock.RUnlock()
 
 	if bucket != nil {
 		defer bucket.Release()
@@ -209,6 +210,13 @@ func (s *indexKVStore) Suggest(bucketID uint32, prefix string, limit int) ([]str
 		return sortResult(result)
 	}
 
+	// NOTE: must read memory before getting snapshot(same as GetValues)
+	var result []string
+	s.lock.RLock()
+	result = append(result, suggest(s.mutable)...)
+	result = append(result, suggest(s.immutable)...)
+	s.lock.RUnlock()
+
 	snapshot := s.getSnapshot()
 
 	reader := v1.NewIndexKVReader(snapshot)
@@ -216,12 +224,6 @@ func (s *indexKVStore) Suggest(bucketID uint32, prefix string, limit int) ([]str
 	if err != nil {
 		return nil, err
 	}
-
-	var result []string
-	s.lock.RLock()
-	result = append(result, suggest(s.mutable)...)
-	result = append(result, suggest(s.immutable)...)
-	s.lock.RUnlock()
 
 	if bucket != nil {
 		defer bucket.Release()
@@ -408,6 +410,13 @@ func (s *indexKVStore) GetValueFromMem(bucketID uint32, key []byte) (uint32, boo
 
 // FindValuesByRegexp returns values by regexp expr.
 func (s *indexKVStore) FindValuesByRegexp(bucketID uint32, rp *regexp.Regexp, ids []uint32) ([]uint32, error) {
+	// find from memory
+	// NOTE: must read memory before getting snapshot(same as GetValues)
+	s.lock.RLock()
+	ids = s.findValuesByRegexp(s.mutable, bucketID, rp, ids)
+	ids = s.findValuesByRegexp(s.immutable, bucketID, rp, ids)
+	s.lock.RUnlock()
+
 	snapshot := s.getSnapshot()
 
 	reader := v1.NewIndexKVReader(snapshot)
@@ -419,12 +428,6 @@ func (s *indexKVStore) FindValuesByRegexp(bucketID uint32, rp *regexp.Regexp, id
 		defer bucket.Release()
 		ids = bucket.FindValuesByRegexp(rp, ids)
 	}
-	// find from memory
-	s.lock.RLock()
-	defer s.lock.RUnlock()
-
-	ids = s.findValuesByRegexp(s.mutable, bucketID, rp, ids)
-	ids = s.findValuesByRegexp(s.immutable, bucketID, rp, ids)
 	return ids, nil
 }
 
@@ -474,6 +477,12 @@ func (s *indexKVStore) findValuesByLike(bucketID uint32,
 	prefix, subKey []byte,
 	check func(a, b []byte) bool, ids []uint32,
 ) ([]uint32, error) {
+	// NOTE: must read memory before getting snapshot(same as GetValues)
+	s.lock.RLock()
+	ids = s.findValuesByLikeFormMem(s.mutable, bucketID, subKey, check, ids)
+	ids = s.findValuesByLikeFormMem(s.immutable, bucketID, subKey, check, ids)
+	s.lock.RUnlock()
+
 	snapshot := s.getSnapshot()
 	reader := v1.NewIndexKVReader(snapshot)
 	bucket, err := reader.GetBucket(bucketID)
@@ -484,12 +493,6 @@ func (s *indexKVStore) findValuesByLike(bucketID uint32,
 		defer bucket.Release()
 		ids = bucket.FindValuesByLike(prefix, subKey, check, ids)
 	}
-
-	s.lock.RLock()
-	defer s.lock.RUnlock()
-
-	ids = s.findValuesByLikeFormMem(s.mutable, bucketID, subKey, check, ids)
-	ids = s.findValuesByLikeFormMem(s.immutable, bucketID, subKey, check, ids)
 	return ids, nil
 }
 
